@@ -264,6 +264,43 @@ pub fn gen(r: &mut Rng, cases: usize, size: usize, extra: &[String], out: &mut O
                 }
                 out.line("adump native");
             }
+            "cli" => {
+                let modes = ["naive", "biodivine", "hybrid"];
+                let all_flags = ["grd", "com", "stm", "stmpre", "stmrew", "stmrew2", "stmca", "stmcb", "stmng", "twoval"];
+                let heus = ["-", "Simple", "MinModMinPathsMaxVarImp", "MinModMaxVarImpMinPaths"];
+                for k in 0..6 {
+                    let mut perm: Vec<usize> = (0..2 * n).collect();
+                    for i in (1..perm.len()).rev() {
+                        perm.swap(i, r.usize(i + 1));
+                    }
+                    let mode = modes[r.usize(3)];
+                    let sort = ["none", "lx", "an"][r.usize(3)];
+                    // single flags (judged against the specification) and flag sets (section order)
+                    let flags: Vec<&str> = if k < 4 {
+                        vec![all_flags[r.usize(all_flags.len())]]
+                    } else {
+                        all_flags.iter().copied().filter(|_| r.chance(2, 5)).collect()
+                    };
+                    let flags_s = if flags.is_empty() { "-".to_string() } else { flags.join("+") };
+                    out.line(&format!(
+                        "cli {mode} {sort} {flags_s} {} {} {} {}",
+                        heus[r.usize(4)],
+                        perm.iter().map(|x| x.to_string()).collect::<Vec<_>>().join(","),
+                        r.below(1 << 30),
+                        r.below(1 << 30)
+                    ));
+                }
+                out.line(&format!("clibad {} {} {}", modes[r.usize(3)], r.usize(6), r.below(1 << 30)));
+                if case % 10 == 0 {
+                    out.line(&format!("cliexport {}", r.below(1 << 30)));
+                }
+                if case == 0 {
+                    // probe of the recorded finding D6 (quoted label with a character biodivine rejects)
+                    out.line("cliq hybrid");
+                    out.line("cliq biodivine");
+                    out.line("cliq naive");
+                }
+            }
             "present" => {
                 // metamorphic presentations of the same framework: fact order x sorting x naming x layout
                 for _ in 0..5 {
@@ -486,7 +523,51 @@ impl Exec {
                 }
                 true
             }
-            "adopt" | "presented" | "ordercheck" => true,
+            "adopt" | "presented" | "ordercheck" | "clirun" => true,
+            "cli" if ws.len() == 8 => {
+                out.line(l);
+                out.flush();
+                let r = catch_unwind(AssertUnwindSafe(|| self.cli(ws[1], ws[2], ws[3], ws[4], ws[5], ws[6], ws[7])));
+                match r {
+                    Ok(Some(lines)) => {
+                        for x in lines {
+                            out.line(&x);
+                        }
+                    }
+                    Ok(None) => out.line("= bad-request"),
+                    Err(_) => out.line("= panic"),
+                }
+                true
+            }
+            "clibad" if ws.len() == 4 => {
+                out.line(l);
+                out.flush();
+                match catch_unwind(AssertUnwindSafe(|| self.clibad(ws[1], ws[2], ws[3]))) {
+                    Ok(Some(x)) => out.line(&x),
+                    Ok(None) => out.line("~ bad-request"),
+                    Err(_) => out.line("~ panic"),
+                }
+                true
+            }
+            "cliexport" if ws.len() == 2 => {
+                out.line(l);
+                out.flush();
+                match catch_unwind(AssertUnwindSafe(|| self.cliexport())) {
+                    Ok(Some(x)) => out.line(&x),
+                    Ok(None) => out.line("~ bad-request"),
+                    Err(_) => out.line("~ panic"),
+                }
+                true
+            }
+            "cliq" if ws.len() == 2 => {
+                out.line(l);
+                out.flush();
+                let file = tmp_file("q.adf");
+                let _ = std::fs::write(&file, "s(\"a&b\").s(c).ac(\"a&b\",c(v)).ac(c,\"a&b\").");
+                let (code, stdout) = run_cli(&["--lib", ws[1], "--grd", file.to_str().unwrap_or("")]);
+                out.line(&format!("~ exit={code} {}", stdout.trim_end().replace(' ', "_")));
+                true
+            }
             "present" if ws.len() == 5 => {
                 out.line(l);
                 out.flush();
@@ -614,6 +695,187 @@ impl Exec {
             "memocheckn" => true,
             _ => false,
         }
+    }
+
+    /// labels, text and variable order of one presentation (shared by `present` and `cli`)
+    fn presentation(&self, perm: &[usize], sort: &str, lseed: u64, wseed: u64) -> Option<(Vec<String>, String, Vec<usize>)> {
+        let n = self.n;
+        let mut lr = Rng::new(lseed);
+        let mut wr = Rng::new(wseed);
+        let pool = ["a", "b", "x", "and", "andy", "or", "c", "neg1", "s", "ac", "iff", "xor", "imp", "10", "9", "2", "02", "B", "a10", "a9", "a2", "Zz", "v", "f"];
+        let mut labels: Vec<String> = Vec::new();
+        while labels.len() < n {
+            let cand = if lr.chance(1, 4) {
+                format!("{}{}", pool[lr.usize(pool.len())], lr.below(30))
+            } else {
+                pool[lr.usize(pool.len())].to_string()
+            };
+            if !labels.contains(&cand) {
+                labels.push(cand);
+            }
+        }
+        let ws = |wr: &mut Rng| -> String {
+            match wr.below(5) {
+                0 => " ".into(),
+                1 => "\n".into(),
+                2 => "  \t".into(),
+                _ => String::new(),
+            }
+        };
+        let mut txt = String::new();
+        for &k in perm {
+            if k < n {
+                txt += &format!("s({}).{}", labels[k], ws(&mut wr));
+            } else {
+                let body = text(&self.acs[k - n], &labels);
+                let body = if wr.bool() { body.replace(',', &format!("{},{}", ws(&mut wr), ws(&mut wr))) } else { body };
+                txt += &format!("ac({}{},{}{}).{}", labels[k - n], ws(&mut wr), ws(&mut wr), body, ws(&mut wr));
+            }
+        }
+        let src: &'static str = Box::leak(txt.clone().into_boxed_str());
+        let parser: &'static AdfParser<'static> = Box::leak(Box::new(AdfParser::default()));
+        if parser.parse()(src).is_err() {
+            return None;
+        }
+        match sort {
+            "lx" => {
+                parser.varsort_lexi();
+            }
+            "an" => {
+                parser.varsort_alphanum();
+            }
+            _ => {}
+        }
+        let names = parser.var_container().names().read().ok()?.clone();
+        let order: Vec<usize> = names.iter().map(|nm| labels.iter().position(|l| l == nm)).collect::<Option<_>>()?;
+        Some((labels, txt, order))
+    }
+
+    #[allow(clippy::too_many_arguments)]
+    fn cli(&mut self, mode: &str, sort: &str, flags: &str, heu: &str, perm: &str, lseed: &str, wseed: &str) -> Option<Vec<String>> {
+        let n = self.n;
+        let perm_v: Vec<usize> = perm.split(',').filter(|x| !x.is_empty()).map(|x| x.parse().ok()).collect::<Option<_>>()?;
+        if perm_v.len() != 2 * n || n == 0 {
+            return None;
+        }
+        let (labels, txt, order) = self.presentation(&perm_v, sort, lseed.parse().ok()?, wseed.parse().ok()?)?;
+        let file = tmp_file("in.adf");
+        std::fs::write(&file, &txt).ok()?;
+        let mut args: Vec<String> = vec!["--lib".into(), mode.into()];
+        match sort {
+            "lx" => args.push("--lx".into()),
+            "an" => args.push("--an".into()),
+            _ => {}
+        }
+        let flag_list: Vec<&str> = if flags == "-" { vec![] } else { flags.split('+').collect() };
+        for f in &flag_list {
+            args.push(format!("--{f}"));
+        }
+        if heu != "-" {
+            args.push("--heu".into());
+            args.push(heu.into());
+        }
+        args.push(file.to_str()?.to_string());
+        let argv: Vec<&str> = args.iter().map(|s| s.as_str()).collect();
+        let (code, stdout) = run_cli(&argv);
+        // canonical: every printed line mapped back to the ORIGINAL statement order
+        let mut canon: Vec<String> = Vec::new();
+        let mut wellformed = true;
+        for line in stdout.lines() {
+            let mut cs = vec!['?'; n];
+            let mut count = 0;
+            for item in line.split(' ').filter(|x| !x.is_empty()) {
+                let (v, rest) = item.split_at(1);
+                let name = rest.strip_prefix('(').and_then(|x| x.strip_suffix(')'));
+                match (name.and_then(|nm| labels.iter().position(|l| l == nm)), v) {
+                    (Some(i), "T") | (Some(i), "F") | (Some(i), "u") => {
+                        if count < n && order[count] != i {
+                            wellformed = false; // not printed in variable order
+                        }
+                        cs[i] = v.chars().next().unwrap();
+                        count += 1;
+                    }
+                    _ => wellformed = false,
+                }
+            }
+            if count != n || !line.ends_with(' ') {
+                wellformed = false;
+            }
+            canon.push(cs.into_iter().collect());
+        }
+        let unordered = flag_list.iter().any(|f| *f == "stmrew" || *f == "stmrew2");
+        let mut seq = canon.clone();
+        if unordered {
+            seq.sort();
+        }
+        let mut set = canon;
+        set.sort();
+        let hex = |s: &str| s.bytes().map(|b| format!("{b:02x}")).collect::<String>();
+        let j = |v: &[String]| if v.is_empty() { "-".to_string() } else { v.join(",") };
+        Some(vec![
+            "= ran".into(),
+            format!(
+                "clirun {mode} {sort} {flags} {heu} {perm} {} {}",
+                order.iter().map(|x| x.to_string()).collect::<Vec<_>>().join(","),
+                labels.iter().map(|l| hex(l)).collect::<Vec<_>>().join(",")
+            ),
+            format!("= exit={code} wellformed={} lines={}", wellformed as u8, j(&seq)),
+            format!("~ exit={code} set={}", j(&set)),
+            format!("# case adf n={n} nodes=9 mode={mode} flags={}", flag_list.len()),
+        ])
+    }
+
+    /// a definitely malformed file must be rejected: non-zero exit, nothing printed
+    fn clibad(&mut self, mode: &str, kind: &str, seed: &str) -> Option<String> {
+        let n = self.n;
+        if n == 0 {
+            return None;
+        }
+        let perm: Vec<usize> = (0..2 * n).collect();
+        let (_labels, txt, _order) = self.presentation(&perm, "none", seed.parse().ok()?, 7)?;
+        let bad = match kind {
+            "0" => txt.trim_end().strip_suffix('.')?.to_string(), // missing terminator
+            "1" => format!("{txt} garbage"),                      // trailing garbage
+            "2" => txt.replacen(").", ".", 1),                    // unbalanced bracket
+            "3" => format!("{txt}ac(zz,and(zz))."),               // wrong arity
+            "4" => format!("{txt}ac(zz,nand(zz,zz))."),           // unknown connective
+            _ => format!(" {txt}"),                               // leading whitespace
+        };
+        let file = tmp_file("bad.adf");
+        std::fs::write(&file, &bad).ok()?;
+        let (code, stdout) = run_cli(&["--lib", mode, "--grd", "--com", "--stm", file.to_str()?]);
+        Some(if code != 0 && stdout.is_empty() {
+            "~ rejected".to_string()
+        } else {
+            format!("~ accepted exit={code} stdout={}", stdout.replace([' ', '\n'], "_"))
+        })
+    }
+
+    /// `--export` never overwrites; `--import` of the exported state gives the same answers
+    fn cliexport(&mut self) -> Option<String> {
+        let n = self.n;
+        if n == 0 {
+            return None;
+        }
+        let perm: Vec<usize> = (0..2 * n).collect();
+        let (_labels, txt, _order) = self.presentation(&perm, "none", 11, 13)?;
+        let file = tmp_file("exp.adf");
+        std::fs::write(&file, &txt).ok()?;
+        let json = tmp_file("exp.json");
+        let _ = std::fs::remove_file(&json);
+        let (c1, direct) = run_cli(&["--lib", "naive", "--grd", "--com", "--stm", "--export", json.to_str()?, file.to_str()?]);
+        let first = std::fs::read(&json).ok()?;
+        // second export onto the existing file of a DIFFERENT framework must leave it untouched
+        let other = tmp_file("other.adf");
+        std::fs::write(&other, "s(zz).ac(zz,c(v)).").ok()?;
+        let (c2, _) = run_cli(&["--lib", "naive", "--grd", "--export", json.to_str()?, other.to_str()?]);
+        let second = std::fs::read(&json).ok()?;
+        let (c3, imported) = run_cli(&["--lib", "naive", "--import", "--grd", "--com", "--stm", json.to_str()?]);
+        Some(if c1 == 0 && c2 == 0 && c3 == 0 && first == second && direct == imported && !direct.is_empty() {
+            "~ export ok".to_string()
+        } else {
+            format!("~ export violated exits={c1},{c2},{c3} unchanged={} same-answers={}", first == second, direct == imported)
+        })
     }
 
     /// one presentation of the current framework: permuted facts, sorting, renamed labels, layout
@@ -865,5 +1127,22 @@ pub fn build_formula(bdd: &mut adf_bdd::obdd::Bdd, f: &F) -> Term {
             let y = build_formula(bdd, b);
             bdd.iff(x, y)
         }
+    }
+}
+
+
+pub fn tmp_file(name: &str) -> std::path::PathBuf {
+    let dir = std::env::var("VERIF_TMP").unwrap_or_else(|_| "/verif/build/tmp".to_string());
+    let d = std::path::Path::new(&dir).join(format!("cli-{}", std::process::id()));
+    let _ = std::fs::create_dir_all(&d);
+    d.join(name)
+}
+
+/// runs the real `adf-bdd` binary (path in ADF_BDD_BIN); returns exit code (-1: killed) and stdout
+pub fn run_cli(args: &[&str]) -> (i32, String) {
+    let bin = std::env::var("ADF_BDD_BIN").unwrap_or_else(|_| "/verif/build/target/repo/release/adf-bdd".to_string());
+    match std::process::Command::new(bin).args(args).env_remove("RUST_LOG").stderr(std::process::Stdio::null()).output() {
+        Ok(o) => (o.status.code().unwrap_or(-1), String::from_utf8_lossy(&o.stdout).to_string()),
+        Err(_) => (-2, String::new()),
     }
 }
